@@ -142,16 +142,22 @@ def run_case(case):
                     name = rng.choice(["", (), ("a", ""), ("a", -1), None])
                 why = f"{mm.label}.add_resource(name={name!r})"
                 mon.log(why)
-                pred = mm.predict_add_resource(id(r), True, name, 1, None, None)
+                addr = None
+                if rng.random() < 0.06 and mm.items:
+                    addr = mm.items[0]["start"]     # refused for an address reason: its (legal) name must stay available
+                pred = mm.predict_add_resource(id(r), True, name, 1, addr, None)
                 vn = valid_name(name)
                 if vn and pred.kind == REFUSE and pred.reason == "name-conflict" and vn not in mm.names:
                     st["prefix_refusal"] = True
                 if vn and pred.kind == ACCEPT and any(n[0] == vn[0] and type(n[0]) is type(vn[0]) for n in mm.names):
                     st["sibling_accept"] = True
                 try:
-                    out, raised = m.add_resource(r, name=name, size=1), None
+                    out, raised = m.add_resource(r, name=name, size=1, addr=addr), None
                 except Exception as e:
                     out, raised = None, e
+                if addr is not None and raised is not None:
+                    mon.count("refused_for_address_reason")
+                    mon.eq("atomic", snapshot(t), before, f"{why}: refused (address) but changed {mm.label}")
                 if judge(t, pred, raised, name, why, before):
                     mm.commit_resource(id(r), name, out[0], out[1])
             check_paths(t, why)
